@@ -22,6 +22,9 @@ def kogge_stone(a, b, cin=0):
     prop_orig = a ^ b
     prop_bits = [i for i in prop_orig]
     gen_bits = [i for i in a & b]
+    if not (isinstance(cin, int) and cin == 0):
+        # the carry in generates a carry out of bit 0 whenever bit 0 propagates
+        gen_bits[0] = gen_bits[0] | (prop_bits[0] & cin)
     prop_dist = 1
 
     # creation of the carry calculation
